@@ -6,7 +6,7 @@ use rb_harness::corpus;
 use rb_harness::driver::ask;
 use rb_harness::gen_prog::{generate, Opts};
 use rb_harness::json::J;
-use rb_harness::refrun::{core_ast, parse_ref_answer, run_real, Observed};
+use rb_harness::refrun::{core_ast, core_src_and_code, parse_ref_answer, run_real, Observed};
 use rb_harness::report::{Failure, Kind, Report};
 use rb_harness::rng::Rng;
 
@@ -117,6 +117,39 @@ fn main() {
     rep.bump_by("generated.outside-core-or-rejected", outside);
     let reqs: Vec<String> = cases.iter().map(|c| format!("(ref.run {} {})", FUEL, c.ast)).collect();
     let answers = ask(&reqs);
+    // the code-generator model: compile(model) must equal the real instruction list, instruction for instruction
+    let mut creqs = vec![];
+    let mut cidx = vec![];
+    for (k, c) in cases.iter().enumerate() {
+        if let Some((src, table, code)) = core_src_and_code(&c.text) {
+            creqs.push(format!("(core.compare {} {} {})", src, table, code));
+            cidx.push(k);
+        } else {
+            rep.bump("compile-model.not-serialisable");
+        }
+    }
+    let canswers = ask(&creqs);
+    for (j, a) in canswers.iter().enumerate() {
+        let c = &cases[cidx[j]];
+        if a.starts_with("(same") {
+            rep.bump("compile-model.same");
+            let n: u64 = a.trim_matches(|ch| ch == '(' || ch == ')').split(' ').nth(1).and_then(|x| x.parse().ok()).unwrap_or(0);
+            rep.bump_by("compile-model.instructions-compared", n);
+        } else if a.starts_with("(not-core") {
+            rep.bump("compile-model.instruction-outside-core");
+        } else {
+            let parts: Vec<&str> = a.trim_matches(|ch| ch == '(' || ch == ')').split(' ').collect();
+            let kind: String = parts.get(2).map(|x| x.split('@').next().unwrap_or("").chars().take_while(|ch| !ch.is_ascii_digit() && *ch != ':').collect()).unwrap_or_default();
+            rep.fail(Failure {
+                kind: Kind::ModelVsImpl,
+                signature: format!("compile:{}:{}", parts.first().unwrap_or(&"?"), kind),
+                input: c.text.clone(),
+                implementation: a.clone(),
+                expected: "RbModel.Core.compile = normalise(real instruction list)".into(),
+                note: "(differ <index> <model instr> <real instr> <model len> <real len>)".into(),
+            });
+        }
+    }
     let mut shrunk = 0;
     for (k, c) in cases.iter().enumerate() {
         let real = run_real(&c.text, b"", BUDGET);
